@@ -155,6 +155,11 @@ def stepLine (sim : Sim) (line : Nat) (raw : String) : IO Sim := do
         let rootRcv := sim.st.rcvs.any (fun rc => rc.alive && rc.cell == sim.st.root)
         if rootRcv then diff sim line "send failed although a live receiver is attached to the sender's own cell" else return sim
     | _ => diff sim line "unparsable send"
+  | "panic" :: rest => fail sim line ("panic in the real code or harness: " ++ " ".intercalate rest)
+  | "abort" :: _ =>
+    -- the harness abandoned the case (a transfer of a channel half never completed): not judged
+    IO.println s!"ABORT {sim.name} line={line}"
+    return { sim with active := false }
   | "q" :: items =>
     let mut sim := sim
     for it in items do
@@ -310,7 +315,6 @@ def stepLine (sim : Sim) (line : Nat) (raw : String) : IO Sim := do
     | none => diff { sim with senderAlive := false } line "model does not allow dropSender here"
   | ["yield"] => return { sim with uncertain := true }
   | ["settle"] => return { sim with st := settleModel sim.st, uncertain := false }
-  | "panic" :: rest => fail sim line ("panic in the real code or harness: " ++ " ".intercalate rest)
   | ["end"] => finishCase sim line
   | _ => diff sim line s!"unknown line: {l}"
 
